@@ -9,6 +9,7 @@ import PygModel.Group
 import PygProofs.Lemmas.GroupLemmas
 import PygProofs.Lemmas.UnlistLemmas
 import PygProofs.Lemmas.PivotLemmas
+import PygProofs.Lemmas.UnpivotLemmas
 
 namespace Pyg.Props.C11
 open Pyg
@@ -332,6 +333,121 @@ theorem unpivot_rows (p : VTable) (x : List String) (y z : String)
     cases hf : p.find? (·.1 == k) with
     | none => simp [hf] at this
     | some c => simp [ycols]
+
+/-- **unpivot ∘ pivot, one equation at table level** (unique `(x, y)` pairs, `agg = last`).
+`uRows u x y z` are the rows of `u` as `(x cells, y cell, z cell)` triples, in row order.
+If `d.xyz(x, y, z, last)` succeeds with `p` and `p.unpivot(x, y, z)` with `u`, then the rows of `u`
+whose z is not `None`, *in order*, are the image of a permutation `idx` of the rows of `d` whose z
+is not `None` under `i ↦ (xk i, label i, zᵢ)`, where
+* `xk i` is the x key the pivot table stores for row `i`'s x-group: the x cells of some row `l` of
+  `d` whose x key is `cmp`-equal to row `i`'s (e.g. `1` for `1.0`) — the same for all rows of the group;
+* `label i` is the column label of row `i`'s y value: `yLabel` of the y value of some row `l` whose y
+  is `cmp`-equal to row `i`'s, and two rows have the same label iff their y values are `cmp`-equal.
+Rows of `d` whose z is `None` are indistinguishable, after `pivot`, from absent `(x, y)` cells, hence
+the filter on both sides.  That the y values are renderable (str / int), the labels pairwise distinct
+(no int `1` beside the string `"1"`) and distinct from the `x` names is what `pivot … = some (.ok p)`
+says in the model (`pivot_ok_shape`); `y`, `z` ∉ `x`, `y ≠ z` so that `u` has `x ++ [y, z]` as columns. -/
+theorem unpivot_pivot_multiset (t : Table) (x : List String) (y z : String) (zs : List Cell)
+    (p u : VTable) (hn : t.nrows ≠ 0) (hx : x ≠ [])
+    (hcols : ∀ k ∈ x ++ [y], (t.col? k).isSome = true) (hz : t.col? z = some zs)
+    (hyz : (x ++ [y, z]).Nodup)
+    (huniq : ∀ i j, i < t.nrows → j < t.nrows →
+      cmp (.tuple (xCells t x i)) (.tuple (xCells t x j)) = .eq →
+      cmp (.tuple [yCell t y i]) (.tuple [yCell t y j]) = .eq → i = j)
+    (hp : t.pivot x y z .last = some (.ok p)) (hu : p.unpivot x y z = .ok u) :
+    ∃ (idx : List Nat) (xk : Nat → List Val) (label : Nat → String),
+      idx.Perm ((List.range t.nrows).filter fun i => zs.getD i .none != .none) ∧
+      (uRows u x y z).filter (fun r => !isNoneV r.2.2) =
+        idx.map (fun i => (xk i, Val.cell (.str (label i)), Val.cell (zs.getD i .none))) ∧
+      (∀ i, i < t.nrows → ∃ l, l < t.nrows ∧ xk i = xCells t x l ∧
+        cmp (.tuple (xCells t x i)) (.tuple (xCells t x l)) = .eq) ∧
+      (∀ i j, cmp (.tuple (xCells t x i)) (.tuple (xCells t x j)) = .eq → xk i = xk j) ∧
+      (∀ i, i < t.nrows → ∃ l, l < t.nrows ∧ yLabel (yCell t y l) = some (label i) ∧
+        cmp (.tuple [yCell t y i]) (.tuple [yCell t y l]) = .eq) ∧
+      (∀ i j, i < t.nrows → j < t.nrows →
+        (label i = label j ↔ cmp (.tuple [yCell t y i]) (.tuple [yCell t y j]) = .eq)) := by
+  obtain ⟨hsome, hnd, hpe⟩ := pivot_ok_shape t x y z .last zs p hn hx hcols hz hp
+  have hxp : ∀ i, (xCells t x i).length = x.length := by intro i; simp [xCells]
+  generalize hxyg : listbyG (xyKeys t.nrows (xCells t x) (yCell t y)) = xyg at hsome hnd hpe
+  generalize hxg : listbyG (xyg.map fun g => xPart x.length g.1) = xg at hsome hnd hpe
+  generalize hys : listbyG ((xyg.map fun g => tupleGet x.length g.1).map fun v => Val.tuple [v]) = ys
+    at hsome hnd hpe
+  have hxgs : SortedG xg := by rw [← hxg]; exact listbyG_sorted _
+  have hyss : SortedG ys := by rw [← hys]; exact listbyG_sorted _
+  -- every row has its x-group and its y-group
+  have haddr : ∀ i, i < t.nrows →
+      (∃ gx ∈ xg, cmp (.tuple (xCells t x i)) gx.1 = .eq) ∧
+      (∃ gy ∈ ys, cmp (.tuple [yCell t y i]) gy.1 = .eq) := by
+    intro i hi
+    have := pivot_addresses t.nrows x.length (xCells t x) (yCell t y) hn hxp i hi
+    rw [hxyg, hxg, hys] at this
+    exact this
+  obtain ⟨u', hu', hrows⟩ := unpivot_pivotTable x y z xg ys labOf
+    (fun gx gy => pivotCell xyg x.length zs .last gx.2 gy.1) hx hnd hyz
+  rw [← hpe, hu] at hu'
+  injection hu' with hu'
+  subst hu'
+  obtain ⟨idx, hperm, hcells⟩ := pivot_cells_nonNone t.nrows x.length (xCells t x) (yCell t y) zs hn hxp huniq
+  simp only [hxyg, hxg, hys] at hcells
+  refine ⟨idx, fun i => x.zipIdx.map fun kj => tupleGet kj.2 (groupKeyOf xg (.tuple (xCells t x i))),
+    fun i => labOf (groupKeyOf ys (.tuple [yCell t y i]), []), hperm, ?_, ?_, ?_, ?_, ?_⟩
+  · rw [hrows]
+    have : (xg.flatMap fun gx => ys.map fun gy =>
+          (x.zipIdx.map fun kj => tupleGet kj.2 gx.1, Val.cell (.str (labOf gy)),
+            pivotCell xyg x.length zs .last gx.2 gy.1)) =
+        (xg.flatMap fun gx => ys.map fun gy =>
+          (gx.1, gy.1, pivotCell xyg x.length zs .last gx.2 gy.1)).map
+        fun r => (x.zipIdx.map fun kj => tupleGet kj.2 r.1, Val.cell (.str (labOf (r.2.1, []))), r.2.2) := by
+      rw [List.map_flatMap]
+      apply flatMap_congr'
+      intro gx _
+      rw [List.map_map]
+      rfl
+    rw [this, List.filter_map]
+    have hf : ((fun r : List Val × Val × Val => !isNoneV r.2.2) ∘
+        fun r : Val × Val × Val => (x.zipIdx.map fun kj => tupleGet kj.2 r.1,
+          Val.cell (.str (labOf (r.2.1, []))), r.2.2)) = fun r => !isNoneV r.2.2 := rfl
+    rw [hf, hcells, List.map_map]
+    rfl
+  · intro i hi
+    obtain ⟨⟨gx, hgx, hex⟩, _⟩ := haddr i hi
+    obtain ⟨l, hl, hrep⟩ := xg_key_rep (xCells t x) (yCell t y) hn hxp gx
+      (by rw [hxyg, hxg]; exact hgx)
+    refine ⟨l, hl, ?_, by rw [← hrep]; exact hex⟩
+    simp only
+    rw [groupKeyOf_eq hxgs hgx hex, hrep]
+    exact zipIdx_tupleGet x _ (hxp l)
+  · intro i j hij
+    simp only
+    rw [groupKeyOf_congr xg hij]
+  · intro i hi
+    obtain ⟨_, ⟨gy, hgy, hey⟩⟩ := haddr i hi
+    obtain ⟨l, hl, hrep⟩ := ys_key_rep (xCells t x) (yCell t y) hn hxp gy
+      (by rw [hxyg, hys]; exact hgy)
+    refine ⟨l, hl, ?_, by rw [← hrep]; exact hey⟩
+    simp only
+    rw [groupKeyOf_eq hyss hgy hey]
+    have h1 := hsome gy hgy
+    simp only [labOf]
+    rw [hrep] at h1 ⊢
+    simp only [tupleGet, List.getD_cons_zero] at h1 ⊢
+    cases hl : yLabel (yCell t y l) with
+    | none => simp [hl] at h1
+    | some s => simp
+  · intro i j hi hj
+    obtain ⟨_, ⟨gi, hgi, hei⟩⟩ := haddr i hi
+    obtain ⟨_, ⟨gj, hgj, hej⟩⟩ := haddr j hj
+    simp only
+    rw [groupKeyOf_eq hyss hgi hei, groupKeyOf_eq hyss hgj hej]
+    constructor
+    · intro hlab
+      have : gi = gj := eq_of_nodup_map (List.nodup_append.1 hnd).2.1 gi hgi gj hgj hlab
+      rw [this] at hei
+      exact cmp_eq_trans hei (cmp_eq_symm hej)
+    · intro hc
+      have : gi = gj := group_unique hyss hgi hgj
+        (cmp_eq_trans (cmp_eq_symm hei) (cmp_eq_trans hc hej))
+      rw [this]
 
 /-! ## non-vacuity and evaluation tests -/
 
